@@ -212,6 +212,51 @@ Fixpoint list_eq (a b : list N) : bool :=
   | _, _ => false
   end.
 
+Definition chk1 (chk : tree -> tree -> list N -> option (list N)) (x x' : tree) (d : list N) : option (list N) :=
+  obind (chk x x' d) (fun d1 => if list_eq d1 d then Some d else None).
+Definition chk2 (chk : tree -> tree -> list N -> option (list N)) (x x' y y' : tree) (d : list N) : option (list N) :=
+  obind (chk1 chk x x' d) (fun _ => chk1 chk y y' d).
+
+Definition orelse {A} (a b : option A) : option A := match a with Some _ => a | None => b end.
+Definition ref_is (tbl : list (N * N)) (f op : N) : bool :=
+  match assoc tbl f with Some op0 => N.eqb op op0 | None => false end.
+
+Definition try_binop (chk : tree -> tree -> list N -> option (list N)) (f : N) (args ks' : list tree) (tg' : N) (d : list N) :=
+  match args, ks' with
+  | [x; y], [x'; Nd op []; y'] =>
+      if N.eqb tg' T_BinOp && ref_is ref_binops f op then chk2 chk x x' y y' d else None
+  | _, _ => None
+  end.
+Definition try_unary (chk : tree -> tree -> list N -> option (list N)) (f : N) (args ks' : list tree) (tg' : N) (d : list N) :=
+  match args, ks' with
+  | [x], [Nd op []; x'] =>
+      if N.eqb tg' T_UnaryOp && ref_is ref_unaryops f op then chk1 chk x x' d else None
+  | _, _ => None
+  end.
+Definition try_compare (chk : tree -> tree -> list N -> option (list N)) (f : N) (args ks' : list tree) (tg' : N) (d : list N) :=
+  match args, ks' with
+  | [x; y], [l'; Nd tl1 [Nd op []]; Nd tl2 [r']] =>
+      if N.eqb tg' T_Compare && N.eqb tl1 T_LIST && N.eqb tl2 T_LIST then
+        if ref_is ref_compareops f op || ref_is ref_isops f op then chk2 chk x l' y r' d
+        else if N.eqb f H_contains && N.eqb op T_In && pure x && pure y then chk2 chk x r' y l' d
+        else None
+      else None
+  | _, _ => None
+  end.
+Definition try_getitem (chk : tree -> tree -> list N -> option (list N)) (f : N) (args ks' : list tree) (tg' : N) (d : list N) :=
+  match args, ks' with
+  | [x; y], [x'; y'; Nd tld []] =>
+      if N.eqb tg' T_Subscript && N.eqb f H_getitem && N.eqb tld T_Load then chk2 chk x x' y y' d else None
+  | _, _ => None
+  end.
+Definition try_delitem (chk : tree -> tree -> list N -> option (list N)) (f : N) (args ks' : list tree) (tg' : N) (d : list N) :=
+  match args, ks' with
+  | [x; y], [Nd tl1 [Nd ts [x'; y'; Nd tdel []]]] =>
+      if N.eqb tg' T_Delete && N.eqb tl1 T_LIST && N.eqb ts T_Subscript && N.eqb f H_delitem && N.eqb tdel T_Del
+      then chk2 chk x x' y y' d else None
+  | _, _ => None
+  end.
+
 Fixpoint chk (b a : tree) (d : list N) {struct b} : option (list N) :=
   match b with
   | At h => match a with At h' => if N.eqb h h' then Some d else None | _ => None end
@@ -239,53 +284,10 @@ Fixpoint chk (b a : tree) (d : list N) {struct b} : option (list N) :=
                 match operator_attr func with
                 | None => None
                 | Some f =>
-                    match args, ks' with
-                    | [x; y], [x'; Nd op []; y'] =>
-                        if N.eqb tg' T_BinOp then
-                          match assoc ref_binops f with
-                          | Some op0 =>
-                              if N.eqb op op0 then
-                                obind (chk x x' d) (fun d1 => obind (chk y y' d)
-                                  (fun d2 => if list_eq d1 d && list_eq d2 d then Some d else None))
-                              else None
-                          | None => None
-                          end
-                        else None
-                    | [x], [Nd op []; x'] =>
-                        if N.eqb tg' T_UnaryOp then
-                          match assoc ref_unaryops f with
-                          | Some op0 =>
-                              if N.eqb op op0 then
-                                obind (chk x x' d) (fun d1 => if list_eq d1 d then Some d else None)
-                              else None
-                          | None => None
-                          end
-                        else None
-                    | [x; y], [l'; Nd tl1 [Nd op []]; Nd tl2 [r']] =>
-                        if N.eqb tg' T_Compare && N.eqb tl1 T_LIST && N.eqb tl2 T_LIST then
-                          if (match assoc ref_compareops f with Some op0 => N.eqb op op0 | None => false end)
-                             || (match assoc ref_isops f with Some op0 => N.eqb op op0 | None => false end)
-                          then
-                            obind (chk x l' d) (fun d1 => obind (chk y r' d)
-                              (fun d2 => if list_eq d1 d && list_eq d2 d then Some d else None))
-                          else if N.eqb f H_contains && N.eqb op T_In && pure x && pure y then
-                            obind (chk x r' d) (fun d1 => obind (chk y l' d)
-                              (fun d2 => if list_eq d1 d && list_eq d2 d then Some d else None))
-                          else None
-                        else None
-                    | [x; y], [x'; y'; Nd tld []] =>
-                        if N.eqb tg' T_Subscript && N.eqb f H_getitem && N.eqb tld T_Load then
-                          obind (chk x x' d) (fun d1 => obind (chk y y' d)
-                            (fun d2 => if list_eq d1 d && list_eq d2 d then Some d else None))
-                        else None
-                    | [x; y], [Nd tl1 [Nd ts [x'; y'; Nd tdel []]]] =>
-                        if N.eqb tg' T_Delete && N.eqb tl1 T_LIST && N.eqb ts T_Subscript
-                           && N.eqb f H_delitem && N.eqb tdel T_Del then
-                          obind (chk x x' d) (fun d1 => obind (chk y y' d)
-                            (fun d2 => if list_eq d1 d && list_eq d2 d then Some d else None))
-                        else None
-                    | _, _ => None
-                    end
+                    orelse (try_binop chk f args ks' tg' d)
+                      (orelse (try_unary chk f args ks' tg' d)
+                         (orelse (try_compare chk f args ks' tg' d)
+                            (orelse (try_getitem chk f args ks' tg' d) (try_delitem chk f args ks' tg' d))))
                 end
             | _ => None
             end
